@@ -39,6 +39,7 @@ type httpWorld struct {
 	mu      sync.Mutex
 	cases   map[int]*httpCase
 	tunnels map[string]*httpTunnel
+	streamAck map[string]chan struct{} // interactive streams: closed by the user once the first piece has arrived
 	// plugin worlds
 	userTLS    *tls.Config // users speak TLS to the public endpoint
 	backendTLS *tls.Config // the backend speaks TLS
@@ -277,6 +278,11 @@ func worldHTTP(w *World) {
 		hw.viol("progress", "stall", "http traffic did not finish within 10 simulated minutes")
 		return
 	}
+	// a response that is delivered piece by piece (server-sent events, long poll): what the backend has flushed reaches
+	// the user while the response is still open - the backend waits for the user's reaction before it goes on
+	if w.KnobBool("interactive_stream", 40) {
+		hw.streamProbe(addr)
+	}
 	// many exchanges outstanding on one route at the same time (a dozen or two requests to the backend that never
 	// answers): each of them is owed its gateway-timeout answer within the configured time, not one after the other,
 	// and a healthy route is served meanwhile
@@ -455,6 +461,23 @@ func (hw *httpWorld) backendConn(conn net.Conn, which string) {
 		if tid := m.get("X-Tunnel"); len(tid) == 1 {
 			hw.backendTunnel(conn, br, m, tid[0])
 			return
+		}
+		if sid := m.get("X-Stream"); len(sid) == 1 {
+			// a response delivered piece by piece: the second piece is only written once the user has confirmed the
+			// first (or after 20 s, which is the failure the user side reports)
+			hw.mu.Lock()
+			ack := hw.streamAck[sid[0]]
+			hw.mu.Unlock()
+			fmt.Fprintf(conn, "HTTP/1.1 200 OK\r\nContent-Type: text/event-stream\r\nTransfer-Encoding: chunked\r\n\r\n")
+			fmt.Fprintf(conn, "%x\r\n%s\r\n", len("piece-1 "+sid[0]+"\n"), "piece-1 "+sid[0]+"\n")
+			if ack != nil {
+				select {
+				case <-ack:
+				case <-time.After(20 * time.Second):
+				}
+			}
+			fmt.Fprintf(conn, "%x\r\n%s\r\n0\r\n\r\n", len("piece-2\n"), "piece-2\n")
+			continue
 		}
 		ids := m.get("X-Case")
 		var c *httpCase
@@ -708,6 +731,71 @@ func trunc(s []string) []string {
 }
 
 // errorProbe sends one request whose backend is unreachable/silent and checks the bounded error answer.
+func (hw *httpWorld) streamProbe(addr string) {
+	w := hw.w
+	w.Check("C02.streamed-response-delivered-as-it-comes")
+	id := fmt.Sprintf("s%d", w.R.U64())
+	ack := make(chan struct{})
+	hw.mu.Lock()
+	if hw.streamAck == nil {
+		hw.streamAck = map[string]chan struct{}{}
+	}
+	hw.streamAck[id] = ack
+	hw.mu.Unlock()
+	var conn net.Conn
+	raw, err := simnet.DialFrom("10.0.3.97", addr, 10*time.Second)
+	if err != nil {
+		close(ack)
+		return
+	}
+	conn = raw
+	if hw.userTLS != nil {
+		tc := tls.Client(raw, hw.userTLS)
+		raw.SetDeadline(time.Now().Add(30 * time.Second))
+		if err := tc.Handshake(); err != nil {
+			raw.Close()
+			close(ack)
+			return
+		}
+		raw.SetDeadline(time.Time{})
+		conn = tc
+	}
+	defer conn.Close()
+	t0 := w.Net.Now()
+	fmt.Fprintf(conn, "GET /events HTTP/1.1\r\nHost: a.example.test\r\nX-Stream: %s\r\nAccept: text/event-stream\r\n\r\n", id)
+	br := bufio.NewReader(conn)
+	conn.SetReadDeadline(time.Now().Add(15 * time.Second))
+	var got strings.Builder
+	first := false
+	for !first {
+		line, err := br.ReadString('\n')
+		got.WriteString(line)
+		if strings.Contains(line, "piece-1 "+id) {
+			first = true
+		}
+		if err != nil {
+			break
+		}
+	}
+	close(ack)
+	if !first {
+		hw.viol("response", "streamed-piece-held-back", "the backend sent the status line, the headers and a first piece of a streamed response and keeps the response open; %v later the user has received %q", w.Net.Now()-t0, got.String())
+		return
+	}
+	w.Probe("http.stream_first_piece_in_time")
+	conn.SetReadDeadline(time.Now().Add(60 * time.Second))
+	for {
+		line, err := br.ReadString('\n')
+		if strings.Contains(line, "piece-2") {
+			return
+		}
+		if err != nil {
+			hw.viol("response", "streamed-rest-missing", "after the first piece of a streamed response the rest never arrived: %v", err)
+			return
+		}
+	}
+}
+
 func (hw *httpWorld) errorProbe(addr, host string, bound time.Duration, wantStatus []int, what string) {
 	w := hw.w
 	w.Check("C02.error-answer-bounded")
